@@ -172,3 +172,48 @@ def path(ctx, cfg):
     ctx.guard("operation-raised", agree, ctx, ds, model, U, when)
     inv = (len(set(ds._edges)) == len(ds._edges)) and ds._edge_hashmap == {e: i for i, e in enumerate(ds._edges)}
     ctx.require(inv, "invariant-reestablished", lambda: f"{when}: _edges={ds._edges} _edge_hashmap={ds._edge_hashmap}")
+
+
+def post_hook(tier):
+    """thorough tier: the same history property as a CrossHair contract (independent engine).
+    A CrossHair counterexample is replayed on the real code before it is believed; 'not confirmed' is inconclusive."""
+    import ast
+    import os
+    import re
+    import subprocess
+    import sys
+    import time
+
+    if tier != "thorough":
+        return {}
+    here = os.path.dirname(os.path.abspath(__file__))
+    f = os.path.join(here, "c20_crosshair_contract.py")
+    env = dict(os.environ)
+    env["PYTHONPATH"] = os.environ.get("GCMPY_REPO", "/repo") + os.pathsep + os.path.dirname(here)
+    t = time.time()
+    try:
+        p = subprocess.run([sys.executable, "-m", "crosshair", "check", "--per_condition_timeout", "90", "--report_all", f],
+                           capture_output=True, text=True, env=env, timeout=400)
+        out = p.stdout + p.stderr
+    except Exception as e:  # noqa
+        return {"evidence": {"crosshair": f"not run: {e}"}}
+    ev = {"crosshair": {"seconds": round(time.time() - t, 1), "output": out.strip()[-400:]}}
+    m = re.search(r"false when calling history_agrees\((.*)\)", out)
+    if m:
+        try:
+            ops = ast.literal_eval(m.group(1).split("ops = ")[-1] if "ops =" in m.group(1) else m.group(1))
+            sys.path.insert(0, here)
+            import c20_crosshair_contract as cc
+
+            if cc.history_agrees(list(ops)) is False:
+                return {"evidence": ev, "violations": [{"label": "crosshair-history", "sig": "crosshair-history", "detail": f"history {ops} (0=add,1=remove; element index)",
+                                                        "config": {"name": "crosshair", "kind": "crosshair"}, "config_name": "crosshair", "values": {"ops": list(map(list, ops))},
+                                                        "reproduced": True}]}
+            ev["crosshair"]["note"] = "counterexample did not reproduce: ignored"
+        except Exception as e:  # noqa
+            ev["crosshair"]["note"] = f"could not parse counterexample: {e}"
+    elif "Confirmed over all paths" in out:
+        ev["crosshair"]["verdict"] = "confirmed over all paths within CrossHair's own bounds"
+    else:
+        ev["crosshair"]["verdict"] = "not confirmed (inconclusive for this sub-check only)"
+    return {"evidence": ev}
